@@ -28,6 +28,7 @@ CFG = dict(
          "and byte mutations, hand-serialised inner / leaf nodes with every count / size field at boundary values, "
          "truncations, type byte, random logs, timestamp files of 0..10 bytes; ahtree: last commit-log entry offset / "
          "size at boundary values against payload / digest log sizes, DataAt entry sizes. "
+         "SQL text (fixed size, not budget-dependent): a pool of 47 statements covering the lexer's scanning loops (block and line comments, string literals with doubled quotes, quoted identifiers, numbers, blobs, @x / $n / ? parameters, casts, JSON, timestamps) and every statement kind of the grammar; EVERY prefix of each statement, every delimiter byte (quote, double quote, / * - ( ) ; , . : @ $ ? x, line break) deleted or doubled, the comment terminator deleted, and /* */ -- quote ( ) ; inserted at four seams (about 6900 probes of sql.ParseSQLString: returns within 20 s, no panic, allocation <= 8 KiB per byte + 4 MiB); 356 of these texts (each statement, 6 sampled variants, 27 end-of-input tails) are tied to the lexer model SQLLex/Lexer.v by the byte positions lexer.Lex reaches after each call. After three calls that did not return, no further wire / stream / open-time / SQL cases are generated. "
          "Probes without a model (falsifier only: panic, no return within 60 s, allocation far beyond the input): "
          "sql.ParseSQLString on mutated SQL, singleapp.Open on files with corrupted headers, the pgsql Parse*Msg "
          "functions (kept from the first version), multiapp / singleapp header values (FILE_SIZE, COMPRESSION_FORMAT)",
@@ -39,8 +40,10 @@ CFG = dict(
         "msgReceiver.Read / ReadFully, ReadValue, kv / z / verifiable-entry / exec-all receivers over a list of "
         "chunks; tbtree: cLogEntry.deserialize / isValid, the io.SectionReader arithmetic of appendable.Checksum, "
         "parameters from the commit-log metadata, readNodeFrom over appendable.Reader, readTsFile; ahtree: OpenWith "
-        "size arithmetic (nodesUpto included), DataAt buffer size. NOT modelled, probed by the falsifier only: goyacc "
-        "SQL parser, singleapp.Open / multiapp.Open header handling; not covered: protobuf unmarshalling (ZAdd / "
+        "size arithmetic (nodesUpto included), DataAt buffer size; embedded/sql lexer.Lex: the scanning loops only (how many bytes each call takes: "
+        "comments, strings, blobs, quoted identifiers, words, numbers, operators, parameters with the lexer's "
+        "parameter-style state), not token values. NOT modelled, probed by the falsifier only: the goyacc automaton "
+        "and grammar actions of the SQL parser, singleapp.Open / multiapp.Open header handling; not covered: protobuf unmarshalling (ZAdd / "
         "verifiable-entry bodies are opaque), gRPC framing, tbtree operations on loaded nodes (history chains, "
         "splits), the I/O of the open loops (which commit-log entry is read, checksum values)",
         "Go slices handed to the decoders have cap == len (harness clamps them), as the model's sub_ assumes",
@@ -56,7 +59,8 @@ CFG = dict(
         "abstracted to 'the bytes, then EOF (or a transport error)'",
         "add-only hooks (build tag verif): pkg/pgsql/server/verif_hooks_c16.go (raw message fields, parseRawMessage), "
         "embedded/tbtree/verif_hooks_c16.go (cLogEntry, readNodeAt, parameters, readTsFile), "
-        "embedded/ahtree/verif_hooks_c16.go (pLogSize / dLogSize)",
+        "embedded/ahtree/verif_hooks_c16.go (pLogSize / dLogSize), embedded/sql/verif_hooks_c16.go (positions reached by "
+        "lexer.Lex; texts containing a NUL byte are not tied: Lex reports that byte as token 0 = end of input)",
         "switches in coq/Tie/C16.v select which code the tie runs against: pg_bind_is_fixed, stream_is_fixed, "
         "tbtree_open_is_fixed, ahtree_open_is_fixed (false = code as found; the theorems cover both values)",
     ],
